@@ -1,6 +1,6 @@
 """T19: the guard layer of geff/core_io/_utils.py -> lean/Gen/StoreGuard.lean  (Python -> Lean `do`-notation).
 
-    remove_tilde, _detect_zarr_spec_version, setup_zarr_group, delete_geff, check_for_geff
+    remove_tilde, _detect_zarr_spec_version, open_storelike, setup_zarr_group, delete_geff, check_for_geff
 
 are translated *statement by statement* from the AST of the working tree (parsed, never imported)
 into Lean `do`-blocks in the trace monad `Geff.KV.Prog` of the key-view store model
@@ -23,6 +23,8 @@ what this plug-in adds:
   block, `Flow.next (x, …)` with the locals bound in the block that are read afterwards (each must be
   assigned at the top level of the `try` body, and every handler must assign it or end in
   `return`/`raise`); the statements after the `try` continue in the `.next` arm;
+* `raise X(…) [from e]` (message dropped), `except X as e` (the name is not bound), `is_remote_url(str(p))`
+  (`false`: the str/Path locations of the model are local), `p.exists()`;
 * early `return` anywhere, `pass`, `warnings.warn(…)` (dropped: no exception under default filters),
   a reassigned parameter (`let mut store := store`), calls of the other translated functions with
   positional or keyword arguments (omitted arguments take the default written in the callee's
@@ -53,10 +55,12 @@ FUNCS = {
     "setup_zarr_group": {"lean": "setupZarrGroup", "params": [("store", "StoreRef"), ("zarr_format", "Fmt")],
                          "ret": "Group"},
     "delete_geff": {"lean": "deleteGeff", "params": [("store", "StoreRef"), ("zarr_format", "Fmt")], "ret": "Unit"},
+    "open_storelike": {"lean": "openStorelike", "params": [("store", "StoreRef")], "ret": "Group"},
     "check_for_geff": {"lean": "checkForGeff", "params": [("store", "StoreRef"), ("zarr_format", "Option Fmt")],
                        "ret": "Bool"},
 }
-ORDER = ["remove_tilde", "_detect_zarr_spec_version", "setup_zarr_group", "delete_geff", "check_for_geff"]
+ORDER = ["remove_tilde", "_detect_zarr_spec_version", "open_storelike", "setup_zarr_group", "delete_geff",
+         "check_for_geff"]
 ROOT_FILES = {"zarr.json": ".json", ".zgroup": ".zgroup", ".zarray": ".zarray"}
 RAISE = {"FileExistsError": ".fileExists", "ValueError": ".valueError", "TypeError": ".typeError"}
 PATH_CONSTS = {"NODES", "EDGES"}
@@ -64,7 +68,7 @@ PATH_CONSTS = {"NODES", "EDGES"}
 
 PRIMS = {"isStr", "isPath", "isStrOrPath", "strOf", "hasTilde", "expanduser", "osPathExists", "rmtree", "toPath",
          "rootFileExists", "attrPath", "openGroup", "delItem", "groupKeys", "groupContains", "attrsContainsGeff",
-         "delAttrGeff", "fmtNum", "zarrFormatNum", "zarrVersionStartsWith", "pyAnd", "pyOr", "tryExcept", "d", "e",
+         "delAttrGeff", "isRemoteUrl", "fmtNum", "zarrFormatNum", "zarrVersionStartsWith", "pyAnd", "pyOr", "tryExcept", "d", "e",
          "v", "unmodelled", "exc", "pyIsInstance"} | {f["lean"] for f in FUNCS.values()}
 
 
@@ -119,6 +123,13 @@ class Fn:
 
     # ------------------------------------------------------------------ expressions
     def expr(self, n, binds):
+        """-> (Lean text usable as a function argument, Lean type)"""
+        e, t = self._expr(n, binds)
+        if " " in e and not (e.startswith("(") and e.endswith(")")) and not e.startswith('"'):
+            e = f"({e})"
+        return e, t
+
+    def _expr(self, n, binds):
         if isinstance(n, ast.Name):
             if n.id not in self.env:
                 raise Unsupported(f"unknown (or out-of-scope) variable {n.id}")
@@ -199,7 +210,9 @@ class Fn:
             b, tb = self.expr(r, binds)
             if ta == "Fmt" and tb == "Nat":
                 a, ta = f"fmtNum {a}", "Nat"
-            if ta == tb == "Nat":
+            if ta == "Option Nat" and tb == "Nat":
+                b, tb = f"some {b}", ta
+            if ta == tb and ta in ("Nat", "Option Nat"):
                 return f"({a} {'==' if isinstance(op, ast.Eq) else '!='} {b})", "Bool"
             raise Unsupported(f"comparison of {ta} with {tb}")
         if isinstance(op, (ast.Is, ast.IsNot)) and isinstance(r, ast.Constant) and r.value is None:
@@ -248,6 +261,17 @@ class Fn:
             if t == "Tilde":
                 return f"expanduser {e}", "StoreRef"
             raise Unsupported(f"expanduser of {t}")
+        if d == "is_remote_url" and len(n.args) == 1 and not n.keywords:
+            e, t = self.expr(n.args[0], binds)
+            if t == "Tilde":
+                return f"isRemoteUrl {e}", "Bool"
+            raise Unsupported(f"is_remote_url of {t}")
+        if isinstance(f, ast.Attribute) and f.attr == "exists" and not n.args and not n.keywords \
+                and isinstance(f.value, ast.Name):
+            e, t = self.expr(f.value, binds)
+            if t == "StoreRef":
+                return self.bind(binds, f"osPathExists {e}", "Bool")
+            raise Unsupported(f".exists() of {t}")
         if d == "os.path.exists" and len(n.args) == 1 and not n.keywords:
             e, t = self.expr(n.args[0], binds)
             if t == "StoreRef":
@@ -374,11 +398,9 @@ class Fn:
         if isinstance(s, ast.Expr) and isinstance(s.value, ast.Call):
             d = _dotted(s.value.func)
             if d == "warnings.warn":
-                for a in [*s.value.args, *[k.value for k in s.value.keywords]]:
-                    if any(isinstance(x, (ast.Call, ast.Subscript, ast.Attribute)) for x in ast.walk(a)) \
-                            and not (isinstance(a, ast.Name)):
-                        if not (isinstance(a, ast.Attribute) or isinstance(a, ast.Name)):
-                            raise Unsupported("warnings.warn with a computed argument")
+                if any(isinstance(x, ast.Call) for a in [*s.value.args, *[k.value for k in s.value.keywords]]
+                       for x in ast.walk(a)):
+                    raise Unsupported("warnings.warn with a computed argument")
                 return False
             if d == "shutil.rmtree" and len(s.value.args) == 1 and not s.value.keywords:
                 binds: list[str] = []
@@ -430,7 +452,7 @@ class Fn:
             return True
         if isinstance(s, ast.Raise):
             exc = s.exc.func.id if isinstance(s.exc, ast.Call) and isinstance(s.exc.func, ast.Name) else None
-            if exc is None or self.in_try:
+            if exc is None:
                 raise Unsupported(f"raise {ast.unparse(s)[:50]}")
             out.append(ind + f"Prog.raise ({RAISE.get(exc) or 'exc ' + lean_str(exc)})")
             return True
@@ -486,8 +508,8 @@ class Fn:
                 raise Unsupported(f"{v} is read after the try block but not assigned at its top level")
         handlers = []
         for h in s.handlers:
-            if h.name is not None:
-                raise Unsupported("except … as e")
+            # `except X as e`: the name is not bound in the translation (exception messages are dropped),
+            # so any other use of it in the handler is refused as an unknown variable
             t = h.type
             elts = t.elts if isinstance(t, ast.Tuple) else [t]
             names = []
